@@ -672,8 +672,107 @@ func ruleC19Helpers(w *World, r *Report) {
 			r.bad(rule, "contract of ast."+spec.name, "-", "helper not found")
 			continue
 		}
+		if okC, whyC, decided := w.firstMatchByInterpretation(fn, spec.test); decided {
+			if okC {
+				r.ok(rule, "contract of ast."+spec.name, w.pos(fn.Pos()), whyC)
+			} else {
+				r.bad(rule, "contract of ast."+spec.name, w.pos(fn.Pos()), whyC)
+			}
+			continue
+		}
 		w.checkFirstMatchLoop(r, rule, fn, spec.test, spec.none)
 	}
+}
+
+// firstMatchByInterpretation: posChoice / nodeChoice followed by interpretation for every number of alternatives the
+// generated methods can pass (0 to 8) and every pattern of valid and invalid ones: the result is the first valid
+// alternative, or the "none" value. Whatever the helper looks like inside (a range loop, an index scan, a generic
+// first-match function with a predicate), this is its whole behaviour on the domain it is used on.
+func (w *World) firstMatchByInterpretation(fn *ssa.Function, test string) (ok bool, why string, decided bool) {
+	if len(fn.Params) != 1 {
+		return false, "", false
+	}
+	init, _ := w.pkgInit(modRoot + "/ast")
+	cases := 0
+	for k := 0; k <= 8; k++ {
+		for pat := 0; pat < 1<<k; pat++ {
+			arr := &carray{}
+			want := -1
+			for j := 0; j < k; j++ {
+				valid := pat&(1<<j) != 0
+				var el cval
+				if test == "Invalid" {
+					if valid {
+						el = mkInt(100 + j)
+					} else {
+						el = mkInt(-1)
+					}
+				} else {
+					if valid {
+						el = cval{kind: cDyn, typ: "Ident", fields: map[string]cval{"#": mkInt(j)}}
+					} else {
+						el = cval{kind: cNilPtr}
+					}
+				}
+				if valid && want < 0 {
+					want = j
+				}
+				arr.e = append(arr.e, el)
+			}
+			arg := cval{kind: cSlice, arr: arr, lo: 0, hi: k}
+			if k == 0 {
+				arg = cval{kind: cNilPtr}
+			}
+			ci := w.newConcr()
+			ci.heap = true
+			if init != nil {
+				ci.globals = init.globals
+			}
+			out := ci.run(fn, []cval{arg}, 0)
+			if out.status != "return" || len(out.vals) != 1 {
+				if k == 0 && arg.kind == cNilPtr {
+					// try the empty non-nil slice form as well before giving up
+				}
+				return false, "", false
+			}
+			got := out.vals[0]
+			cases++
+			okCase := false
+			switch {
+			case test == "Invalid" && want < 0:
+				v, isI := intOf(got)
+				okCase = isI && v == -1
+			case test == "Invalid":
+				v, isI := intOf(got)
+				okCase = isI && v == 100+want
+			case want < 0:
+				okCase = got.kind == cNilPtr
+			default:
+				if got.kind == cDyn {
+					if id, isI := intOf(got.fields["#"]); isI && id == want {
+						okCase = true
+					}
+				}
+			}
+			if got.kind == cUnknown {
+				return false, "", false
+			}
+			if !okCase {
+				return false, fmt.Sprintf("with %d alternatives of which the valid ones are %s, the result is %s, not the first valid alternative (or the none value)", k, bitsOf(pat, k), got.String()), true
+			}
+		}
+	}
+	return true, fmt.Sprintf("followed by interpretation for 0 to 8 alternatives and every pattern of valid/invalid ones (%d cases): the first valid alternative, else the none value", cases), true
+}
+
+func bitsOf(pat, k int) string {
+	var out []string
+	for j := 0; j < k; j++ {
+		if pat&(1<<j) != 0 {
+			out = append(out, fmt.Sprint(j))
+		}
+	}
+	return "[" + strings.Join(out, " ") + "]"
 }
 
 // checkFirstMatchLoop: `for _, x := range p0 { if good(x) { return x } }; return none`.
